@@ -506,6 +506,66 @@ func (f *Frame) closureAxiom(cl *Closure, pname string, st *State, reach Term) {
 	f.vc.assume(tImp(reach, T(sBool, "(forall (%s) (! %s :pattern (%s)))", strings.Join(qdecl, " "), body.S, pat)))
 }
 
+// closurePre: the preconditions of a closure's contract that speak only about its
+// captured variables (no parameter of the closure occurs in them) are obligations of
+// the function that creates the closure, at the point where it creates it: the body
+// of the closure is verified under them. (The captured variables are assumed not to
+// be reassigned between creation and the calls of the closure.)
+func (f *Frame) closurePre(cl *Closure, st *State, reach Term, pos token.Pos) {
+	cc := f.vc.w.contracts[funcKey(cl.Fn)]
+	if cc == nil || len(cc.Requires) == 0 {
+		return
+	}
+	params := map[string]bool{}
+	for _, p := range cl.Fn.Params {
+		params[p.Name()] = true
+	}
+	env := &Env{f: f, vars: map[string]EV{}, st: st, old: st}
+	if cl.Fn.Parent() != nil && cl.Fn.Parent().Pkg != nil {
+		env.pkg = cl.Fn.Parent().Pkg.Pkg
+	} else if cl.Fn.Pkg != nil {
+		env.pkg = cl.Fn.Pkg.Pkg
+	}
+	for i, fv := range cl.Fn.FreeVars {
+		if i >= len(cl.Bindings) {
+			return
+		}
+		switch b := cl.Bindings[i].(type) {
+		case Term:
+			if pt, isPtr := fv.Type().Underlying().(*types.Pointer); isPtr && b.Sort == sRef {
+				elem := pt.Elem()
+				if _, isS := elem.Underlying().(*types.Struct); isS {
+					env.vars[fv.Name()] = EV{f.loadStruct(b, elem, st), elem}
+				} else {
+					env.vars[fv.Name()] = EV{f.load(f.derefAddr(b, elem), st), elem}
+				}
+			} else {
+				env.vars[fv.Name()] = EV{b, fv.Type()}
+			}
+		case *Addr:
+			env.vars[fv.Name()] = EV{f.load(b, st), derefType(fv.Type())}
+		}
+	}
+	for i, r := range cc.Requires {
+		mentionsParam := false
+		for _, id := range identRe.FindAllString(r.Text, -1) {
+			if params[id] {
+				mentionsParam = true
+				break
+			}
+		}
+		if mentionsParam {
+			continue
+		}
+		t, err := env.trBool(r.Text)
+		if err != nil {
+			continue
+		}
+		name := fmt.Sprintf("pre@%s%s", f.prefix, f.vc.site("closure:"+funcKey(cl.Fn)+"/"+clauseName(r, i)))
+		f.vc.oblige("pre", name, mergeTags(r.Tags, f.tags), reach, t, f.pos(pos)).Desc = "what the closure assumes of its captured variables holds where it is created: " + r.Text
+	}
+}
+
 func lastName(key string) string {
 	if i := strings.LastIndexAny(key, "./"); i >= 0 {
 		return key[i+1:]
